@@ -136,9 +136,16 @@ def cahnHilliardExpr (γ : Fac) : Expr :=
 /-- `KPZInterfacePDE.expression`: `ν * ∇²c + λ * |∇c|²` -/
 def kpzExpr (ν lam : Fac) : Expr := .add (exprProd ν (lapE vC)) (exprProd lam (gradsqE vC))
 
-/-- `KuramotoSivashinskyPDE.expression`: `-∇²(c + ν * ∇²c) - 0.5 * |∇c|²` -/
+/-- `KuramotoSivashinskyPDE.expression`: `-∇²(c + ν * ∇²c) - 0.5 * |∇c|²` (the text of the
+tree as it is: `c + ν ∇²c` grouped under ONE Laplacian) -/
 def ksExpr (ν : Fac) : Expr :=
   .sub (.neg (lapE (.add vC (exprProd ν (lapE vC))))) (.mul (.num (1/2)) (gradsqE vC))
+
+/-- the same right-hand side with the operators written one by one, as `evolution_rate` applies
+them: `(-ν) * ∇²(∇²c) - ∇²c - 0.5 * |∇c|²` (`negν` is the factor `-ν` the text prints; the
+proposed repair `notes/proposed_fixes/C10-grouped-expression.diff`) -/
+def ksExprSplit (negν : Fac) : Expr :=
+  .sub (.sub (exprProd negν (lapE (lapE vC))) (lapE vC)) (.mul (.num (1/2)) (gradsqE vC))
 
 /-- `SwiftHohenbergPDE.expression`:
 `(ε - kc2²) * c - c³ + δ * c² - ∇²(2 kc2 * c + ∇²c)`; the three printed factors are
@@ -146,6 +153,12 @@ arguments because each is rounded on its own -/
 def swiftHohenbergExpr (a δ twoKc2 : Fac) : Expr :=
   .sub (.add (.sub (exprProd a vC) (.powI vC 3)) (exprProd δ (.powI vC 2)))
     (lapE (.add (exprProd twoKc2 vC) (lapE vC)))
+
+/-- the same right-hand side with the two Laplacians written one by one:
+`(ε - kc2²) * c - c³ + δ * c² - 2 kc2 * ∇²c - ∇²(∇²c)` (proposed repair) -/
+def swiftHohenbergExprSplit (a δ twoKc2 : Fac) : Expr :=
+  .sub (.sub (.add (.sub (exprProd a vC) (.powI vC 3)) (exprProd δ (.powI vC 2)))
+    (exprProd twoKc2 (lapE vC))) (lapE (lapE vC))
 
 /-- `WavePDE.expressions`: `{"u": "v", "v": speed² * ∇²u}` -/
 def waveExprs (speed2 : Fac) : Expr × Expr := (vV, exprProd speed2 (lapE vU))
@@ -163,23 +176,95 @@ variable {ι K : Type} [Add K] [Sub K] [Mul K] [Div K] [Neg K] [NatCast K] [IntC
 
 def isDiffOp1 (f : String) : Bool := f = "laplace" || f = "gradient_squared"
 
-/-- operator table of a scalar equation: `laplace` and `gradient_squared` are the given
-operators, everything else is local -/
-def pdeTab (T : FunTab K) (lap gradsq : Op ι K) : FunTab (Fld ι K) :=
-  opTab T isDiffOp1 (fun f => if f = "laplace" then lap else gradsq)
+/-- operator table of ONE equation: the names for which `look` answers denote operators on whole
+fields, every other name is a local function applied cell by cell.  This is what
+`PDE._compile_rhs_single` builds: `ops[func]` for the differential operators of the expression,
+sympy/numpy functions for the rest. -/
+def opsTabF (T : FunTab K) (look : String → Option (Op ι K)) : FunTab (Fld ι K) :=
+  opTab T (fun f => (look f).isSome) (fun f => (look f).getD (fun x => x))
     (fun _ => false) (fun _ x _ => x)
 
-/-- environment of fields: variables by name -/
-def fieldEnv (vars : List (String × St ι K)) : Env (Fld ι K) where
+/-- the same with the operators given as an association list (first entry of a name wins) -/
+def opsTab (T : FunTab K) (ops : List (String × Op ι K)) : FunTab (Fld ι K) :=
+  opsTabF T (fun f => ops.lookup f)
+
+/-- operator table of a scalar equation with the two operators of the predefined classes -/
+def pdeTab (T : FunTab K) (lap gradsq : Op ι K) : FunTab (Fld ι K) :=
+  opsTab T [("laplace", lap), ("gradient_squared", gradsq)]
+
+/-- environment of a right-hand side: fields by name, then numbers (constants, the time) as
+constant fields -/
+def fieldEnvS (vars : List (String × St ι K)) (scalars : List (String × K)) : Env (Fld ι K) where
   sc := fun s => match vars.lookup s with
     | some x => ⟨x⟩
-    | none => ⟨fun _ => zero⟩
+    | none => match scalars.lookup s with
+      | some v => ⟨fun _ => v⟩
+      | none => ⟨fun _ => zero⟩
   ix := fun _ _ => ⟨fun _ => zero⟩
 
-/-- value of a right-hand-side text for the fields `vars` -/
+/-- environment of fields only -/
+def fieldEnv (vars : List (String × St ι K)) : Env (Fld ι K) := fieldEnvS vars []
+
+/-- value of a right-hand-side text: `look` gives the operators of this equation (each already
+carrying its boundary condition at the current time), `vars` the fields (state, field-valued
+constants, coordinates), `scalars` the numeric constants and the time -/
+def rhsValueF (T : FunTab K) (look : String → Option (Op ι K)) (vars : List (String × St ι K))
+    (scalars : List (String × K)) (e : Expr) : St ι K :=
+  (eval (opsTabF T look) (fieldEnvS vars scalars) e).val
+
+/-- the same with the operators as an association list -/
+def rhsValueOps (T : FunTab K) (ops : List (String × Op ι K)) (vars : List (String × St ι K))
+    (scalars : List (String × K)) (e : Expr) : St ι K :=
+  rhsValueF T (fun f => ops.lookup f) vars scalars e
+
+/-- value of a right-hand-side text for the fields `vars` with the operators `laplace` and
+`gradient_squared` (the advertised texts of the predefined classes) -/
 def rhsValue (T : FunTab K) (lap gradsq : Op ι K) (vars : List (String × St ι K)) (e : Expr) :
     St ι K :=
-  (eval (pdeTab T lap gradsq) (fieldEnv vars) e).val
+  rhsValueOps T [("laplace", lap), ("gradient_squared", gradsq)] vars [] e
+
+/-! ### which boundary condition the generic `PDE` gives to which operator
+
+`PDE.__init__` stores `bc_ops` (keys `"VARIABLE:OPERATOR"`, either part may be the wildcard
+`*`) in the order given and appends the default `bc` under the key `*:*`;
+`_add_operators_to_expr` walks this table and takes the FIRST key that matches the variable of
+the equation and the operator name. -/
+
+/-- a key `kv:ko` applies to operator `op` in the equation of `var` -/
+def bcMatches (key : String × String) (var op : String) : Bool :=
+  (key.1 = var || key.1 = "*") && (key.2 = op || key.2 = "*")
+
+/-- position of the selected condition in `bc_ops ++ [default]`: the first matching key, and
+`keys.length` (the default) when no key of `bc_ops` matches -/
+def bcIndex (keys : List (String × String)) (var op : String) : Nat :=
+  keys.findIdx (fun k => bcMatches k var op)
+
+/-- names of the unary functions called in an expression (the candidates for operator names) -/
+def funNames1 : Expr → List String
+  | .num _ | .var _ | .idx _ _ | .named _ => []
+  | .neg a | .powI a _ | .heav1 a => funNames1 a
+  | .add a b | .sub a b | .mul a b | .div a b | .call2 _ a b | .heav2 a b | .cmp _ a b =>
+    funNames1 a ++ funNames1 b
+  | .call1 f a => f :: funNames1 a
+
+/-- the operator that the name `name` denotes in the equation of `var`.  `table` lists, for every
+operator name that may occur in a right-hand side (after the harness's desugaring of vector
+operators e.g. `gradient__0`), the name `bcName` under which `PDE` looks its condition up
+(`gradient`) and one instance of the operator per entry of `bc_ops ++ [default]` (`none`: the
+real code cannot build this combination).  The instance at `bcIndex` is the one the equation
+uses. -/
+def pdeOp (keys : List (String × String))
+    (table : List (String × String × List (Option (Op ι K)))) (var name : String) :
+    Option (Op ι K) :=
+  match table.lookup name with
+  | some (bcName, insts) => insts.getD (bcIndex keys var bcName) none
+  | none => none
+
+/-- value of the right-hand side of the equation of `var` in a generic `PDE` -/
+def rhsValuePde (T : FunTab K) (keys : List (String × String))
+    (table : List (String × String × List (Option (Op ι K)))) (var : String)
+    (vars : List (String × St ι K)) (scalars : List (String × K)) (e : Expr) : St ι K :=
+  rhsValueF T (pdeOp keys table var) vars scalars e
 
 end
 
